@@ -331,20 +331,20 @@ Proof.
       assert (Hwid : 0 < b_id w < nid).
       { eapply Forall_forall in Hids; [exact Hids|]. apply in_or_app. right. unfold w_list. rewrite Ew. left. reflexivity. }
       (* the provisional persist changes only the index and the ALO counter *)
-      set (pr := if ck && (start =? 0)
+      set (pr := if ck && (start =? 0) && (0 <? b_used w)
                  then let '(r', p) := should_persist m (set_cur r1 i 0) true in
                       (r', if p then persist ts true (b_id w) start else ts)
                  else (set_cur r1 i 0, ts)).
       assert (Hr4 : r_chain (fst pr) = r_chain r1 /\ r_idx (fst pr) = i /\ r_off (fst pr) = 0 /\
                     r_tail_bid (fst pr) = r_tail_bid r1 /\ r_tail_off (fst pr) = r_tail_off r1 /\ r_hydrated (fst pr) = true).
-      { unfold pr. destruct (ck && (start =? 0)).
+      { unfold pr. destruct (ck && (start =? 0) && (0 <? b_used w)).
         - pose proof (should_persist_fields m (set_cur r1 i 0) true) as Hsp.
           destruct (should_persist m (set_cur r1 i 0) true) as [r' p]. cbn [fst]. cbn in Hsp. destruct Hsp as (G1 & G2 & G3 & G4 & G5 & G6).
           repeat split; auto. now rewrite G6.
         - cbn. repeat split; auto. }
       assert (Hts1 : ts_writer (snd pr) = Some w /\ ts_poisoned (snd pr) = false /\ ts_unmodelled (snd pr) = false /\
                      ts_count (snd pr) = ts_count ts /\ (ts_reader (snd pr) = ts_reader ts)).
-      { unfold pr. destruct (ck && (start =? 0));
+      { unfold pr. destruct (ck && (start =? 0) && (0 <? b_used w));
           [destruct (should_persist m (set_cur r1 i 0) true) as [r' p]; destruct p|]; cbn; repeat split; auto. }
       fold pr. destruct pr as [r4 ts1]. cbn [fst snd] in Hr4, Hts1.
       destruct Hr4 as (G1 & G2 & G3 & G4 & G5 & G6). destruct Hts1 as (T1 & T2 & T3 & T4 & T5).
